@@ -122,6 +122,10 @@ def check_case(ctx, case):
                     for q in range(ncol):
                         stack[c, s, r, q] = stack_value(c, s, r, q,
                                                         case["seed"], pixs[c])
+                        if case.get("mixed_files") and \
+                                (s + case["seed"]) % 2 == 0:
+                            # every other slice is dim (fits 8 bits)
+                            stack[c, s, r, q] %= 200
         dirs = []
         names = slice_names(case.get("naming", "padded"), nsl)
 
